@@ -252,5 +252,32 @@ def run(repo='/repo', tier='quick'):
             res.holds('C12.d', 'field:%s:read' % fld, 'read by ' + ', '.join(sorted(readers)[:3]))
         else:
             res.info('C12.d', 'field:%s:unread' % fld, 'decoder option %s is never read by a decoder' % fld)
+    # ---------------- C12.e the decoder configuration is the transaction's own
+    res.rule('C12.e', 'per-transaction configuration: wherever a transaction is at hand, decoder options are read through tx->cfg (a local or parameter bound to it), never through the connection parser\'s configuration')
+    nsrc = 0
+    for n_, g in sorted(db.fn.items()):
+        if g.unit == 'htp_config':
+            continue
+        has_tx = any('htp_tx_t' in p_['t'] for p_ in g.params)
+        if not has_tx:
+            continue
+        srcs = []
+        for b, i, st in g.stmts():
+            for m in nodes(st, lambda y: y.get('k') == 'member' and y['field'] == 'decoder_cfgs'):
+                srcs.append((P.K(m['base']), m))
+            for cl in nodes(st, lambda y: y.get('k') == 'call' and y.get('callee') in ('htp_urldecode_inplace_ex', 'htp_utf8_decode_path_inplace', 'htp_urldecode_inplace')):
+                srcs.append((P.K(cl['args'][0]), cl))
+            for d in nodes(st, lambda y: y.get('k') == 'decl'):
+                for v in d['vars']:
+                    if 'htp_cfg_t' in v['t'] and 'init' in v:
+                        srcs.append((P.K(v['init']), v['init']))
+        for src, node in srcs:
+            if src in ('cfg',) or src in [p_['name'] for p_ in g.params]:
+                continue
+            nsrc += 1
+            ok = src.endswith('tx->cfg') and '->connp->cfg' not in src
+            res.check(ok, 'C12.e', '%s:decoder-cfg-from:%s' % (n_, src), 'decoder options come from the transaction\'s configuration',
+                      '%s takes the decoder configuration from %s although it has the transaction: a transaction with its own configuration (htp_tx_set_config) is decoded with the connection\'s settings' % (n_, src), node.get('loc', g.loc))
+    res.floor('C12.e', 'decoder configuration sources in functions that have a tx', nsrc, 4)
     res.assumptions.append('equality with the documented pipeline on values, idempotence and "no dot segment remains" are not decided')
     return res
